@@ -1,0 +1,9 @@
+//go:build verif
+
+// Contracts for package auth, checked by /verif (ssovc). Comment-only file.
+package auth
+
+//@ func (p *Authenticator) redeemCode(host string, code string) (*sessions.SessionState, error)
+//@   modifies everything
+//@   ensures [C10 C09] session_needs_email: result.1 == nil ==> result.0 != nil && called(@Redeem#1) && @Redeem#1.1 == nil && result.0 == @Redeem#1.0 && result.0.Email != ""
+//@   ensures [C10] no_session_on_error: result.1 != nil ==> result.0 == nil
